@@ -24,6 +24,33 @@ def getSlice (comp : Char → Char) (s : Seq) (f : Feat) : List Char :=
 def realOf (m : List MSpan) : List (Int × Int) :=
   m.filterMap fun | .span s e => some (s, e) | .lost _ => none
 
+/-- `FeatureMap.start` (`__post_init__`): the smallest start over the real spans -/
+def mapStart : List (Int × Int) → Int
+  | [] => 0
+  | [p] => p.1
+  | p :: ps => min p.1 (mapStart ps)
+
+/-- `FeatureMap.end`: the largest end over the real spans -/
+def mapEnd : List (Int × Int) → Int
+  | [] => 0
+  | [p] => p.2
+  | p :: ps => max p.2 (mapEnd ps)
+
+/-- view indices read by `get_slice(allow_gaps=True)`: `self.parent[fmap.start : fmap.end]` after `without_gaps()`
+(one contiguous segment of the view, from the first to the last retained position of the feature; a feature with no
+retained position gives the empty slice) -/
+def contigIdx (f : Feat) : List Int :=
+  match realOf f.spans with
+  | [] => []
+  | r => irange (mapStart r) (mapEnd r)
+
+/-- the residues `feature.get_slice(allow_gaps=True)` returns on a sequence: the contiguous segment, and — like the
+spliced form — `_do_seq_slice` reverse-complements it when the feature is reversed relative to the view -/
+def getSliceContig (comp : Char → Char) (s : Seq) (f : Feat) : List Char :=
+  let t := str comp s
+  let joined := (contigIdx f).map fun i => t[i.toNat]!
+  if f.reversed then (joined.reverse).map comp else joined
+
 /-- NEW-style `Sequence._mapped` (`core/new_sequence.py`): for a map with exactly one real span it does
 `seq = self._seq[map.start:map.end]` and passes `annotation_offset = map.start` to the constructor, where
 `_coerce_to_seqview` raises `ValueError('cannot set offset …')` when both that offset and the sliced view's
